@@ -37,6 +37,7 @@ def case_c13_grid(case, ref_path=None, ref_res=None, keep_log=False):
             ref_path = os.path.join(d, "serial.nc")
             ref_res = gridsim.run(serial_variant(scenario), ref_path)
         par_path = os.path.join(d, "par.nc")
+        scenario = dict(scenario, work_cap=20 * ref_res["work"] + 20000)
         res = gridsim.run(scenario, par_path, keep_log=keep_log)
         violation = None
         diffs = []
@@ -64,6 +65,7 @@ def case_c13_grid(case, ref_path=None, ref_res=None, keep_log=False):
             "parallel_outcome": [res["outcome"], res["exc"]],
             "violation": violation,
             "event_log_digest": res.get("event_log_digest"),
+            "work": [ref_res.get("work"), res.get("work")],
             "steps": res.get("steps"), "sim_time_us": res.get("sim_time_us"),
             "sim_stats": res.get("sim_stats"), "signature": res.get("signature"),
             "buggify": res.get("buggify"), "clock": res.get("clock"),
